@@ -274,6 +274,71 @@ type vc06Res struct {
 
 func vc06Hex(s string) string { return hex.EncodeToString([]byte(s)) }
 
+// vc06Observe runs one call of ParseOrResolveBlocklisted on c and records it together with the oracle
+// values of the external functions in the same resolver epoch.
+func vc06Observe(c *RegConfig, stub *vc06Stub, cs vc06Case) vc06Res {
+	var r vc06Res
+	sb, _ := hex.DecodeString(cs.S)
+	s := string(sb)
+	stub.setScript(cs.Script)
+	stub.setEpoch(cs.Epoch)
+	func() {
+		defer func() {
+			if rc := recover(); rc != nil {
+				r.Panic = fmt.Sprint(rc)
+			}
+		}()
+		out, lk := c.ParseOrResolveBlocklisted(s)
+		r.Out, r.Lookup = vc06Hex(out), lk
+	}()
+	r.Queries = stub.takeQueries()
+	if r.Queries == nil {
+		r.Queries = []string{}
+	}
+	// oracle values of the external functions (same epoch => same answers)
+	if a := net.ParseIP(s); a != nil {
+		r.ParseWhole = hex.EncodeToString(a)
+	}
+	host, port, err := net.SplitHostPort(s)
+	r.DomMatch = []bool{}
+	if err == nil {
+		r.SplitOk = true
+		r.Host, r.Port = vc06Hex(host), vc06Hex(port)
+		if a := net.ParseIP(host); a != nil {
+			r.ParseHost = hex.EncodeToString(a)
+		}
+		addr, rerr := net.ResolveIPAddr("ip", host)
+		if rerr == nil {
+			r.Resolve.Ok = true
+			if addr == nil {
+				r.Resolve.Nil = true
+			} else {
+				r.Resolve.IP = hex.EncodeToString(addr.IP)
+				r.Resolve.Zone = vc06Hex(addr.Zone)
+				r.Resolve.Text = vc06Hex(addr.String())
+				if len(addr.IP) != 0 {
+					r.Resolve.IPStr = vc06Hex(addr.IP.String())
+				}
+			}
+		}
+		for _, re := range c.covertBlocklistDomains {
+			r.DomMatch = append(r.DomMatch, re.MatchString(host))
+		}
+	}
+	// the returned literal, handed to the same function after the answers changed
+	if r.Panic == "" && r.Out != "" {
+		stub.setEpoch(cs.Epoch + 1)
+		ob, _ := hex.DecodeString(r.Out)
+		func() {
+			defer func() { _ = recover() }()
+			o2, _ := c.ParseOrResolveBlocklisted(string(ob))
+			r.OutReparsed = vc06Hex(o2)
+		}()
+		r.OutQueries = len(stub.takeQueries())
+	}
+	return r
+}
+
 func TestVerifC06Parse(t *testing.T) {
 	raw, err := os.ReadFile(os.Getenv("VERIF_CASES"))
 	if err != nil {
@@ -291,70 +356,165 @@ func TestVerifC06Parse(t *testing.T) {
 	}
 	res := make([]vc06Res, len(in.Cases))
 	for i, cs := range in.Cases {
-		var r vc06Res
-		sb, _ := hex.DecodeString(cs.S)
-		s := string(sb)
-		c := confs[cs.Policy]
-		stub.setScript(cs.Script)
-		stub.setEpoch(cs.Epoch)
-		func() {
-			defer func() {
-				if rc := recover(); rc != nil {
-					r.Panic = fmt.Sprint(rc)
-				}
-			}()
-			out, lk := c.ParseOrResolveBlocklisted(s)
-			r.Out, r.Lookup = vc06Hex(out), lk
-		}()
-		r.Queries = stub.takeQueries()
-		if r.Queries == nil {
-			r.Queries = []string{}
-		}
-		// oracle values of the external functions (same epoch => same answers)
-		if a := net.ParseIP(s); a != nil {
-			r.ParseWhole = hex.EncodeToString(a)
-		}
-		host, port, err := net.SplitHostPort(s)
-		r.DomMatch = []bool{}
-		if err == nil {
-			r.SplitOk = true
-			r.Host, r.Port = vc06Hex(host), vc06Hex(port)
-			if a := net.ParseIP(host); a != nil {
-				r.ParseHost = hex.EncodeToString(a)
-			}
-			addr, rerr := net.ResolveIPAddr("ip", host)
-			if rerr == nil {
-				r.Resolve.Ok = true
-				if addr == nil {
-					r.Resolve.Nil = true
-				} else {
-					r.Resolve.IP = hex.EncodeToString(addr.IP)
-					r.Resolve.Zone = vc06Hex(addr.Zone)
-					r.Resolve.Text = vc06Hex(addr.String())
-					if len(addr.IP) != 0 {
-						r.Resolve.IPStr = vc06Hex(addr.IP.String())
-					}
-				}
-			}
-			for _, re := range c.covertBlocklistDomains {
-				r.DomMatch = append(r.DomMatch, re.MatchString(host))
-			}
-		}
-		// the returned literal, handed to the same function after the answers changed
-		if r.Panic == "" && r.Out != "" {
-			stub.setEpoch(cs.Epoch + 1)
-			ob, _ := hex.DecodeString(r.Out)
-			func() {
-				defer func() { _ = recover() }()
-				o2, _ := c.ParseOrResolveBlocklisted(string(ob))
-				r.OutReparsed = vc06Hex(o2)
-			}()
-			r.OutQueries = len(stub.takeQueries())
-		}
-		res[i] = r
+		res[i] = vc06Observe(confs[cs.Policy], stub, cs)
 	}
 	out, _ := json.Marshal(map[string]interface{}{"policies": dumps, "results": res})
 	if err := os.WriteFile(os.Getenv("VERIF_OUT"), out, 0o644); err != nil {
+		t.Fatal(err)
+	}
+}
+
+// ---------------------------------------------------------------- histories on ONE RegistrationManager
+
+type vc06HistOp struct {
+	Op     string `json:"op"`     // check | reload | ingest
+	S      string `json:"s"`      // hex (check: the string; ingest: the covert, PORT = recorder port)
+	Policy int    `json:"policy"` // reload: the policy to install
+}
+
+type vc06Hist struct {
+	Start  int                     `json:"start"`
+	Ops    []vc06HistOp            `json:"ops"`
+	Script map[string][]vc06Answer `json:"script"`
+}
+
+type vc06HistInput struct {
+	Policies  []vc06Policy `json:"policies"`
+	Histories []vc06Hist   `json:"histories"`
+}
+
+type vc06HistRes struct {
+	Dump   vc06PolicyDump `json:"dump"` // the parsed policy in force when the op ran
+	Check  *vc06Res       `json:"check,omitempty"`
+	Ingest *vc06DialRes   `json:"ingest,omitempty"`
+	Panic  string         `json:"panic,omitempty"`
+}
+
+func vc06DumpLive(c *RegConfig) vc06PolicyDump {
+	return vc06PolicyDump{Block: vc06Nets(c.covertBlocklistSubnets), Allow: vc06Nets(c.covertAllowlistSubnets),
+		AllowOn: c.enableCovertAllowlist, NDom: len(c.covertBlocklistDomains)}
+}
+
+func TestVerifC06History(t *testing.T) {
+	raw, err := os.ReadFile(os.Getenv("VERIF_CASES"))
+	if err != nil {
+		t.Skip("no cases")
+	}
+	var in vc06HistInput
+	if err := json.Unmarshal(raw, &in); err != nil {
+		t.Fatal(err)
+	}
+	stub := vc06StartStub(t)
+	os.Setenv("PHANTOM_SUBNET_LOCATION", "./test/phantom_subnets.toml")
+	rec := &vc06Recorder{}
+	if err := rec.listen("127.0.0.1:0"); err != nil {
+		t.Fatal(err)
+	}
+	port := rec.lns[0].Addr().(*net.TCPAddr).Port
+	for _, a := range []string{"127.0.0.2", "127.0.0.3", "127.1.2.3"} {
+		if err := rec.listen(fmt.Sprintf("%s:%d", a, port)); err != nil {
+			t.Fatalf("recorder %s: %v", a, err)
+		}
+	}
+	discard := log.New(io.Discard, "", 0)
+	res := make([][]vc06HistRes, len(in.Histories))
+	for hi, h := range in.Histories {
+		out := make([]vc06HistRes, len(h.Ops))
+		conf, _ := vc06MakeConf(in.Policies[h.Start])
+		conf.EnableIPv4, conf.EnableIPv6 = true, true
+		rm := NewRegistrationManager(conf)
+		if rm == nil {
+			for i := range out {
+				out[i].Panic = "nil registration manager"
+			}
+			res[hi] = out
+			continue
+		}
+		rm.Logger = discard
+		rm.LivenessTester = &vc06Live{live: false}
+		rm.registeredDecoys.registerForDetector = func(*DecoyRegistration) {}
+		rm.registeredDecoys.updateInDetector = func(*DecoyRegistration) {}
+		var tt pb.TransportType = 0
+		_ = rm.AddTransport(tt, &mockTransport{})
+		stub.setScript(h.Script)
+		for oi, op := range h.Ops {
+			r := &out[oi]
+			func() {
+				defer func() {
+					if rc := recover(); rc != nil {
+						r.Panic = fmt.Sprint(rc)
+					}
+				}()
+				switch op.Op {
+				case "reload":
+					nc, _ := vc06MakeConf(in.Policies[op.Policy])
+					rm.OnReload(nc)
+					r.Dump = vc06DumpLive(rm.RegConfig)
+				case "check":
+					r.Dump = vc06DumpLive(rm.RegConfig)
+					c := vc06Observe(rm.RegConfig, stub, vc06Case{S: op.S, Script: h.Script, Epoch: 0})
+					r.Check = &c
+				case "ingest":
+					r.Dump = vc06DumpLive(rm.RegConfig)
+					var d vc06DialRes
+					d.RecordPort = port
+					sb, _ := hex.DecodeString(op.S)
+					s := strings.ReplaceAll(string(sb), "PORT", fmt.Sprint(port))
+					d.Provided = vc06Hex(s)
+					stub.setEpoch(0)
+					secret := make([]byte, 32)
+					binary.BigEndian.PutUint32(secret, uint32(hi*1000+oi+1))
+					keys, _ := core.GenSharedKeys(1, secret, tt)
+					src := pb.RegistrationSource_API
+					ph := net.IPv4(192, 122, 190, byte(10+oi)).To4()
+					reg := &DecoyRegistration{PhantomIp: ph, PhantomPort: 443, Keys: &keys, Covert: s, Transport: tt,
+						RegistrationSource: &src, registrationAddr: net.ParseIP("10.9.8.7"), RegistrationTime: time.Now()}
+					tp := rm.registeredDecoys.transports[tt]
+					reg.TransportPtr = &tp
+					rm.ingestRegistration(reg)
+					stub.setEpoch(1)
+					rec.take()
+					for _, vr := range rm.registeredDecoys.getRegistrations(ph) {
+						d.Valid = true
+						d.Covert = vc06Hex(vr.Covert)
+						c1, c2 := net.Pipe()
+						done := make(chan struct{})
+						go func() {
+							defer close(done)
+							Proxy(vr, c1, rm.Logger)
+						}()
+						time.Sleep(30 * time.Millisecond)
+						c2.Close()
+						select {
+						case <-done:
+						case <-time.After(20 * time.Second):
+							d.Panic = "Proxy did not return"
+						}
+						c1.Close()
+					}
+					if d.Valid {
+						for k := 0; k < 400; k++ {
+							rec.mu.Lock()
+							n := len(rec.seen)
+							rec.mu.Unlock()
+							if n > 0 {
+								break
+							}
+							time.Sleep(5 * time.Millisecond)
+						}
+					}
+					time.Sleep(5 * time.Millisecond)
+					d.Dialed = rec.take()
+					d.DialQuery = len(stub.takeQueries())
+					stub.setEpoch(0)
+					r.Ingest = &d
+				}
+			}()
+		}
+		res[hi] = out
+	}
+	outb, _ := json.Marshal(map[string]interface{}{"results": res, "port": port})
+	if err := os.WriteFile(os.Getenv("VERIF_OUT"), outb, 0o644); err != nil {
 		t.Fatal(err)
 	}
 }
